@@ -315,7 +315,7 @@ package websocket
 // ReadMessage allocates nothing itself: the payload buffer is grown by
 // io.ReadAll as bytes arrive, never from the length a frame header announces.
 //@ func (*Conn).ReadMessage
-//@ tags C07
+//@ tags C06 C07
 //@ results messageType p err
 //@ requires RState(c)
 //@ allocbound 0
@@ -396,10 +396,10 @@ package websocket
 //@ ensures[C09.refuse] imp(old(c.writeErr) != nil, result == old(c.writeErr))
 //@ ensures[C10.failstop] imp(result != nil, c.writeErr != nil)
 //@ ensures[C09.closesent] imp(result == nil && frameType == 8, c.writeErr != nil)
-//@ assert at call:SetWriteDeadline#1[C09.nowrite]: held(c.mu) && !c.g_closeSent && !c.g_wfailed && c.writeErr == nil
+//@ assert at call:SetWriteDeadline#1[C09+C11.nowrite]: held(c.mu) && !c.g_closeSent && !c.g_wfailed && c.writeErr == nil
 //@ assert at call:SetWriteDeadline#1[C10.deadline]: arg1 == deadline
-//@ assert at call:Write#1[C09.nowrite]: held(c.mu) && !c.g_closeSent && !c.g_wfailed
-//@ assert at call:writeBufs#1[C09.nowrite]: held(c.mu) && !c.g_closeSent && !c.g_wfailed
+//@ assert at call:Write#1[C09+C11.nowrite]: held(c.mu) && !c.g_closeSent && !c.g_wfailed
+//@ assert at call:writeBufs#1[C09+C11.nowrite]: held(c.mu) && !c.g_closeSent && !c.g_wfailed
 //@ cover Write C11.oneframe
 //@ cover writeBufs C11.oneframe
 //@ assert at call:Write#1[C11.oneframe]: c.g_cs == 0 && arg0 == c.conn && same(arg1, buf0) && len(buf1) == 0
@@ -422,14 +422,16 @@ package websocket
 //@ ensures[ctl] c.g_ctlCount == old(c.g_ctlCount) + 1 && c.g_ctlType == messageType
 //@ ensures[ctlcode]@int c.g_ctlCode == ite(len(data) >= 2, b2i(data[0])*256 + b2i(data[1]), 0 - 1)
 //@ ensures[C10.bad] imp(!isControlT(messageType) || len(data) > 125, result != nil && c.conn.g_wn == old(c.conn.g_wn) && c.writeErr == old(c.writeErr))
+//@ assert at return#1[C01+C08.ctlaccept]: !isControlT(messageType)
+//@ assert at return#2[C01+C08.ctlaccept]: len(data) > 125
 //@ assert at return#3[C11.timeout]: result == errWriteTimeout && c.conn.g_wn == old(c.conn.g_wn) && c.writeErr == old(c.writeErr) && !held(c.mu)
 //@ assert at return#4[C11.timeout]: result == errWriteTimeout && c.conn.g_wn == old(c.conn.g_wn) && c.writeErr == old(c.writeErr) && !held(c.mu)
 //@ ensures[C09.refuse] imp(old(c.writeErr) != nil && isControlT(messageType) && len(data) <= 125 && result != errWriteTimeout, result == old(c.writeErr))
 //@ ensures[C10.failstop] imp(result != nil && result != errWriteTimeout && isControlT(messageType) && len(data) <= 125, c.writeErr != nil)
 //@ ensures[C09.closesent] imp(result == nil && messageType == 8, c.writeErr != nil)
-//@ assert at call:SetWriteDeadline#1[C09.nowrite]: held(c.mu) && !c.g_closeSent && !c.g_wfailed && c.writeErr == nil
+//@ assert at call:SetWriteDeadline#1[C09+C11.nowrite]: held(c.mu) && !c.g_closeSent && !c.g_wfailed && c.writeErr == nil
 //@ assert at call:SetWriteDeadline#1[C10.deadline]: arg1 == deadline
-//@ assert at call:Write#1[C09.nowrite]: held(c.mu) && !c.g_closeSent && !c.g_wfailed
+//@ assert at call:Write#1[C09+C11.nowrite]: held(c.mu) && !c.g_closeSent && !c.g_wfailed
 //@ cover Write C11.oneframe
 //@ assert at call:Write#1[C11.oneframe]: c.g_cs == 0 && arg0 == c.conn && held(c.mu)
 //@ ghost after call:Write#1: c.g_cs := c.g_cs + 1
@@ -714,7 +716,7 @@ package websocket
 //@ ghost at exit when result == nil: c.g_out := c.g_acc
 
 //@ func (*Conn).NextWriter
-//@ tags C01 C02 C09 C10 C20
+//@ tags C01 C02 C09 C10 C20 C15!
 //@ results wr err
 //@ requires WConn(c) && WOpen(c)
 //@ requires WOpenData(c)
@@ -723,7 +725,7 @@ package websocket
 //@ ensures[ok] imp(err == nil, wr != nil && wr == c.writer && WOpen(c) && curW(c).frameType == messageType && curW(c).pos == 14 && c.g_out == c.g_acc && region(curW(c)) >= old(alloc()))
 //@ ensures[okdata] imp(err == nil, WOpenData(c))
 //@ ensures[bufown] region(c.writeBuf) == 0 || region(c.writeBuf) == old(region(c.writeBuf)) || region(c.writeBuf) >= old(alloc())
-//@ ensures[C02.rsv1] imp(err == nil, iff(curW(c).compress, c.newCompressionWriter != nil && c.enableWriteCompression && isDataT(messageType)))
+//@ ensures[C02+C15.rsv1] imp(err == nil, iff(curW(c).compress, c.newCompressionWriter != nil && c.enableWriteCompression && isDataT(messageType)))
 //@ ensures[plain] imp(err == nil && !(c.newCompressionWriter != nil && c.enableWriteCompression && isDataT(messageType)), typeIs(wr, "*messageWriter"))
 //@ ensures[fail] imp(err != nil, wr == nil && c.writer == nil)
 //@ ensures[C10.bad] imp(!isControlT(messageType) && !isDataT(messageType), err == errBadWriteOpCode && imp(old(c.writer) == nil, c.conn.g_wn == old(c.conn.g_wn) && c.writeErr == old(c.writeErr)))
@@ -745,13 +747,15 @@ package websocket
 //@ ghost after call:copy#1: c.g_acc := c.g_acc + ret
 
 //@ func newConn
-//@ tags C01 C03 C20
+//@ tags C01 C03 C17 C20
+//@ nilable br
 //@ requires conn != nil && writeBufferSize <= 1099511627776 && readBufferSize <= 1099511627776
 //@ requires imp(br != nil, br.g_size >= 125 && br.g_buf > 0 && br.g_buffered >= 0 && br.g_rd >= 0)
 //@ requires imp(region(writeBuf) != 0, len(writeBuf) >= 139 && off(writeBuf) == 0 && region(writeBuf) > 0 && live(writeBuf))
 //@ modifies
 //@ ensures[fresh] result != nil && ref(result) >= old(alloc())
-//@ ensures[fields] result.conn == conn && result.isServer == isServer && result.writePool == writeBufferPool && imp(br != nil, result.br == br)
+//@ ensures[fields] result.conn == conn && result.isServer == isServer && result.writePool == writeBufferPool
+//@ ensures[C17.reuse] imp(br != nil, result.br == br)
 //@ ensures[reader] result.readErr == nil && result.readFinal && result.readRemaining == 0 && result.readLength == 0 && result.readMaskPos == 0 && result.br != nil && \
 //@     result.br.g_size >= 125 && result.br.g_buf > 0 && result.br.g_buffered >= 0 && result.br.g_rd >= 0 && !held(result.mu)
 //@ ensures[nocompress] result.newCompressionWriter == nil && result.newDecompressionReader == nil && result.enableWriteCompression && result.compressionLevel == 1
@@ -813,6 +817,15 @@ package websocket
 
 //@ func Subprotocols
 //@ tags C07 C12
+//@ bind hv after call:Get#1
+//@ bind h0 after call:TrimSpace#1
+//@ bind sp after call:Split#1
+//@ assert at call:Get#1[C12.offeredhdr]: arg0 == r.Header && streq(arg1, "Sec-Websocket-Protocol")
+//@ assert at call:TrimSpace#1[C12.offeredhdr]: same(arg0, hv)
+//@ assert at call:Split#1[C12.offeredhdr]: same(arg0, h0) && len(arg1) == 1 && arg1[0] == ','
+//@ assert at call:TrimSpace#2[C12.offeredhdr]: 0 <= i && i < len(sp) && same(arg0, protocols[i])
+//@ assert at return#2[C12.offeredhdr]: same(result, sp)
+//@ loop 1 invariant same(protocols, sp)
 
 //@ func (*Upgrader).selectSubprotocol
 //@ tags C07 C12
@@ -865,14 +878,15 @@ package websocket
 //@ ensures isControlT(mw.frameType) == isControlT(old(mw.frameType))
 
 //@ func (*Conn).WriteJSON
-//@ tags C01 C09 C10
+//@ tags C01 C09 C10 C20
 //@ requires WConn(c) && WOpen(c)
 //@ requires WOpenData(c)
 //@ modifies PrevMods(c)
 //@ ensures[state] WConn(c)
 //@ ensures[C09.sent] imp(result == nil, c.writer == nil && c.g_out == c.g_acc && !c.g_wst)
 //@ ensures[C09.closed] imp(old(c.writeErr) != nil, result != nil)
-//@ ensures[C10.failstop] imp(result != nil && c.writer != nil, false)
+//@ ensures[C10+C20.failstop] imp(result != nil && c.writer != nil, false)
+//@ ensures[C20.idle] c.writer == nil
 
 // ---------------------------------------------------------------------------
 // server.go
@@ -1050,6 +1064,8 @@ package websocket
 //@ assert at call:netDial#1[C18.addr]: arg2 == hp && streq(arg1, "tcp")
 //@ assert at call:Write#1[C14.reqhost]: true
 //@ assert at call:ReadResponse#1[C17.reader]: arg0 == conn.br && arg1 == req
+//@ bind bodyn,bodyerr after call:ReadFull#1
+//@ assert at call:ReadFull#1[C14.body]: arg0 == rresp.Body && len(arg1) == 1024
 //@ assert at return#14[C14.bad]: conn == nil && err == ErrBadHandshake && resp == rresp && resp != nil
 //@ assert at return#$[C14.accept]: err == nil && conn != nil && rerr == nil && resp == rresp && resp.StatusCode == 101 && okUpg && okConn && streq(acc, ak)
 //@ bind exts after call:parseExtensions#1
@@ -1089,8 +1105,11 @@ package websocket
 //@ ensures c.enableWriteCompression == enable
 
 //@ func compressNoContextTakeover
-//@ tags C15 C07
+//@ tags C02 C15 C07
 //@ requires 0 - 2 <= level && level <= 9
+//@ assert at call:NewWriter#1[C02.compwire]: typeIs(arg0, "*truncWriter") && asType(arg0, "*truncWriter").w == w && asType(arg0, "*truncWriter").n == 0 && arg1 == level
+//@ assert at call:Reset#1[C02.compwire]: typeIs(arg1, "*truncWriter") && asType(arg1, "*truncWriter").w == w && asType(arg1, "*truncWriter").n == 0
+//@ ensures[C02.compwire] typeIs(result, "*flateWriteWrapper") && asType(result, "*flateWriteWrapper").tw.w == w && asType(result, "*flateWriteWrapper").tw.n == 0 && asType(result, "*flateWriteWrapper").fw != nil
 
 // ---------------------------------------------------------------------------
 // prepared.go
@@ -1261,3 +1280,75 @@ package websocket
 //@ ensures[C02.tail.count] imp(err == nil, w.n == keep && c.g_acc == old(c.g_acc) + fwd)
 //@ ensures[C02.tail.held] imp(err == nil, forall(j, 0, keep, w.p[j] == ite(fwd + j < old(w.n), old(w.p[fwd + j]), p[fwd + j - old(w.n)])))
 //@ ensures[C02.tail.state] imp(err == nil, M.err == nil && WBuf(M) && WData(M))
+
+// ---------------------------------------------------------------------------
+// join.go: JoinMessages reads message after message through NextReader; the
+// end of one message is not reported, the next call starts the next message.
+//@ func (*joinReader).Read
+//@ tags C03 C07
+//@ results n err
+//@ requires r.c != nil && RState(r.c) && live(p)
+//@ bind m,nr,nerr after call:NextReader#1
+//@ bind n0,e0 after call:Read#1
+//@ assert at call:NextReader#1[C03.join]: old(r.r) == nil && arg0 == r.c
+//@ assert at call:NewReader#1[C03.join.term]: same(arg0, r.term)
+//@ assert at call:MultiReader#1[C03.join.term]: len(arg0) == 2 && arg0[0] == nr
+//@ assert at call:Read#1[C03.join]: same(arg1, p) && imp(old(r.r) != nil, arg0 == old(r.r))
+//@ assert at return#1[C03.join]: n == 0 && err == nerr && nerr != nil
+//@ assert at return#2[C03.join]: n == n0 && imp(e0 != io.EOF, err == e0) && imp(e0 == io.EOF, err == nil && r.r == nil)
+
+//@ func (*Conn).ReadJSON
+//@ tags C03 C05 C07
+//@ requires RState(c)
+//@ bind m,nr,nerr after call:NextReader#1
+//@ bind derr after call:Decode#1
+//@ assert at call:NewDecoder#1[C03.json]: nerr == nil && arg0 == nr
+//@ assert at return#1[C05.json]: result == nerr && nerr != nil
+//@ assert at return#2[C05.json]: imp(derr == io.EOF, result == io.ErrUnexpectedEOF) && imp(derr != io.EOF, result == derr)
+
+// compression.go: the inflater goes back to the pool exactly once (at EOF or
+// Close) and is not used afterwards.
+//@ func (*flateReadWrapper).Close
+//@ tags C03 C07
+//@ cover Put C03.flatepool
+//@ assert at call:Put#1[C03.flatepool]: old(r.fr) != nil && asIface(arg1, "io.ReadCloser") == old(r.fr)
+//@ ensures[C03.flatepool] r.fr == nil && imp(old(r.fr) == nil, result == io.ErrClosedPipe)
+
+//@ func (*flateReadWrapper).Read
+//@ tags C03 C07
+//@ results n err
+//@ requires live(p)
+//@ bind n0,e0 after call:Read#1
+//@ assert at call:Read#1[C03.flate]: arg0 == old(r.fr) && old(r.fr) != nil && same(arg1, p)
+//@ ensures[C03.flate] imp(old(r.fr) == nil, n == 0 && err == io.ErrClosedPipe)
+//@ ensures[C03.flatepool] imp(err == io.EOF, r.fr == nil)
+//@ assert at return#2[C03.flate]: n == n0 && err == e0
+
+// The inflater reads the message's frames followed by the sync marker the
+// sender stripped (RFC 7692 7.2.2) and a final empty stored block.
+//@ func decompressNoContextTakeover
+//@ tags C03 C07
+//@ assert at call:NewReader#1[C03.tail]: len(arg0) == 9 && arg0[0] == 0 && arg0[1] == 0 && arg0[2] == 255 && arg0[3] == 255 && arg0[4] == 1 && arg0[5] == 0 && arg0[6] == 0 && arg0[7] == 255 && arg0[8] == 255
+//@ assert at call:MultiReader#1[C03.tail]: len(arg0) == 2 && arg0[0] == r
+//@ ensures[C03.tail] typeIs(result, "*flateReadWrapper")
+
+// The deflate stream's final sync marker (00 00 ff ff) is what truncWriter
+// still holds when the message is closed; it is checked and never forwarded.
+//@ func (*flateWriteWrapper).Close
+//@ tags C02
+//@ nosafety
+//@ assert at call:Close#1[C02.tail.check]: w.tw.p[0] == 0 && w.tw.p[1] == 0 && w.tw.p[2] == 255 && w.tw.p[3] == 255 && arg0 == w.tw.w
+//@ ensures[C02.tail.check] w.fw == nil
+
+// prepared.go: the fake connection that renders a prepared frame obeys the
+// io.Writer rules the writer relies on: every Write is copied into the
+// buffer (the caller reuses its slice for the next fragment) and is complete.
+//@ ghostfield prepareConn.g_writes int
+//@ func (*prepareConn).Write
+//@ tags C19 C07
+//@ results n err
+//@ requires live(p)
+//@ cover Write C19.copywrite
+//@ assert at call:Write#1[C19.copywrite]: owner(arg0) == ref(pc) && same(arg1, p)
+//@ ghost after call:Write#1: pc.g_writes := pc.g_writes + 1
+//@ ensures[C19.copywrite] pc.g_writes == old(pc.g_writes) + 1 && n == len(p) && err == nil
